@@ -1,0 +1,85 @@
+//go:build verif
+
+package rtree
+
+// Contracts checked by /verif/govc (comment-only file; see /verif/DESIGN.md).
+
+//@ prop C11
+
+//@ pred BoxOK(b) = b.MinX <= b.MaxX && b.MinY <= b.MaxY && finite(b.MinX) && finite(b.MaxX) && finite(b.MinY) && finite(b.MaxY)
+//@ pred Contains(p, c) = p.MinX <= c.MinX && c.MaxX <= p.MaxX && p.MinY <= c.MinY && c.MaxY <= p.MaxY
+//@ pred Overlap(a, b) = max(a.MinX, b.MinX) <= min(a.MaxX, b.MaxX) && max(a.MinY, b.MinY) <= min(a.MaxY, b.MaxY)
+//@ pred Tight2(r, a, b) = (r.MinX == a.MinX || r.MinX == b.MinX) && (r.MinY == a.MinY || r.MinY == b.MinY) && (r.MaxX == a.MaxX || r.MaxX == b.MaxX) && (r.MaxY == a.MaxY || r.MaxY == b.MaxY)
+
+//@ func overlap
+//@   requires BoxOK(box1) && BoxOK(box2)
+//@   ensures result <==> Overlap(box1, box2)
+
+//@ func combine
+//@   requires BoxOK(box1) && BoxOK(box2)
+//@   ensures BoxOK(result) && Contains(result, box1) && Contains(result, box2) && Tight2(result, box1, box2)
+
+//@ func squaredEuclideanDistance
+//@   requires BoxOK(b1) && BoxOK(b2)
+//@   ensures result >= 0
+//@   ensures Overlap(b1, b2) ==> result == 0
+
+//@ pred NodeShallow(n) = n != nil && 1 <= n.numEntries && n.numEntries <= 4 && (forall k :: 0 <= k && k < n.numEntries ==> BoxOK(n.entries[k].box))
+
+//@ func calculateBound
+//@   requires NodeShallow(n)
+//@   ensures BoxOK(result)
+//@   ensures forall k :: 0 <= k && k < n.numEntries ==> Contains(result, n.entries[k].box)
+//@   ensures exists k :: 0 <= k && k < n.numEntries && result.MinX == n.entries[k].box.MinX
+//@   ensures exists k :: 0 <= k && k < n.numEntries && result.MinY == n.entries[k].box.MinY
+//@   ensures exists k :: 0 <= k && k < n.numEntries && result.MaxX == n.entries[k].box.MaxX
+//@   ensures exists k :: 0 <= k && k < n.numEntries && result.MaxY == n.entries[k].box.MaxY
+//@   loop 0 invariant 1 <= i && i <= n.numEntries && BoxOK(box)
+//@   loop 0 invariant forall k :: 0 <= k && k < i ==> Contains(box, n.entries[k].box)
+//@   loop 0 invariant exists k :: 0 <= k && k < i && box.MinX == n.entries[k].box.MinX
+//@   loop 0 invariant exists k :: 0 <= k && k < i && box.MinY == n.entries[k].box.MinY
+//@   loop 0 invariant exists k :: 0 <= k && k < i && box.MaxX == n.entries[k].box.MaxX
+//@   loop 0 invariant exists k :: 0 <= k && k < i && box.MaxY == n.entries[k].box.MaxY
+
+//@ lemma prune_sound: forall p: Box, c: Box, q: Box :: BoxOK(p) && BoxOK(c) && BoxOK(q) && Contains(p, c) && Overlap(c, q) ==> Overlap(p, q)
+//@ lemma overlap_symmetric: forall a: Box, b: Box :: BoxOK(a) && BoxOK(b) ==> (overlap(a, b) <==> overlap(b, a))
+//@ lemma overlap_touching: forall a: Box, b: Box :: BoxOK(a) && BoxOK(b) && a.MaxX == b.MinX && a.MinY <= b.MaxY && b.MinY <= a.MaxY ==> overlap(a, b)
+//@ lemma dist_monotone mode=real: forall p: Box, c: Box, q: Box :: BoxOK(p) && BoxOK(c) && BoxOK(q) && Contains(p, c) ==> squaredEuclideanDistance(p, q) <= squaredEuclideanDistance(c, q)
+//@ lemma dist_symmetric mode=real: forall a: Box, b: Box :: BoxOK(a) && BoxOK(b) ==> squaredEuclideanDistance(a, b) == squaredEuclideanDistance(b, a)
+
+// ---- tree invariant ----
+
+//@ pred IsBound(c, b) = (forall k :: 0 <= k && k < c.numEntries ==> Contains(b, c.entries[k].box)) && (exists k :: 0 <= k && k < c.numEntries && b.MinX == c.entries[k].box.MinX) && (exists k :: 0 <= k && k < c.numEntries && b.MinY == c.entries[k].box.MinY) && (exists k :: 0 <= k && k < c.numEntries && b.MaxX == c.entries[k].box.MaxX) && (exists k :: 0 <= k && k < c.numEntries && b.MaxY == c.entries[k].box.MaxY)
+//@ recpred NodeWF(n) = NodeShallow(n) && (forall k :: 0 <= k && k < n.numEntries && n.entries[k].child != nil ==> NodeWF(n.entries[k].child) && IsBound(n.entries[k].child, n.entries[k].box))
+//@ pred TreeWF(t) = t != nil && (t.root != nil ==> NodeWF(t.root))
+
+// ---- searches: stop protocol ----
+// ghost stopped: some callback invocation of this search returned non-nil
+// ghost lastErr: the value it returned
+
+//@ func (*RTree).RangeSearch$1
+//@   ghost stopped: Bool, lastErr: Int
+//@   requires NodeWF(n) && BoxOK(box) && !stopped && callback != nil
+//@   oncall callback requires !stopped
+//@   oncall callback ensures (stopped <==> result != nil) && (stopped ==> lastErr == result)
+//@   ensures (result != nil) <==> stopped
+//@   ensures stopped ==> result == lastErr
+//@   loop 0 invariant 0 <= i && !stopped && NodeWF(n)
+
+//@ func (*RTree).RangeSearch
+//@   ghost stopped: Bool, lastErr: Int
+//@   requires TreeWF(t) && BoxOK(box) && !stopped && callback != nil
+//@   oncall callback requires !stopped
+//@   oncall callback ensures (stopped <==> result != nil) && (stopped ==> lastErr == result)
+//@   ensures !stopped ==> result == nil
+//@   ensures stopped && errors_is(lastErr, Stop) ==> result == nil
+//@   ensures stopped && !errors_is(lastErr, Stop) ==> result == lastErr
+
+//@ func (*RTree).Extent
+//@   requires TreeWF(t)
+//@   ensures result1 <==> t.root != nil
+//@   ensures result1 ==> IsBound(t.root, result0)
+
+//@ func (*RTree).Count
+//@   requires t != nil
+//@   ensures result == t.count
